@@ -650,14 +650,16 @@ def fold_builders(term, shapes):
             fvs = [fv.split(": ", 1) for fv in _split_top(inner) if ": " in fv]
             fvs = [(a, fold_builders(b, shapes)) for a, b in fvs]
             sh = shapes.get(name)
-            if sh is not None and [a for a, _ in fvs] == [a for a, _ in sh[1]]:
+            if sh is not None and sorted(a for a, _ in fvs) == sorted(a for a, _ in sh[1]):
+                fvs = [(a, dict(fvs)[a]) for a, _ in sh[1]]
                 byarg = {}
                 for (fn_, argi), (_, v) in zip(sh[1], fvs):
                     if argi is not None:
                         byarg[argi] = v
                 out += "%s(%s)" % (sh[0], ", ".join(byarg[k] for k in sorted(byarg)))
             else:
-                out += "%s{%s}" % (name, ", ".join("%s: %s" % (a, b) for a, b in fvs))
+                # the order of the fields in a struct definition / literal is not part of the grammar
+                out += "%s{%s}" % (name, ", ".join("%s: %s" % (a, b) for a, b in sorted(fvs)))
             i = j
             continue
         out += term[i]
